@@ -131,8 +131,11 @@ func (g *c19Gen) Next(w *World, n int) *Step {
 		}
 	}
 	if r.Chance(1, 10) {
+		// no password submitted at all (with or without its confirmation)
 		delete(f, "password")
-		wellformed = "0"
+		if r.Bool() {
+			delete(f, "confirm_password")
+		}
 	}
 	st := &Step{Kind: "register", B: b, A: len(w.Accts), Fields: f, Str: map[string]string{"wellformed": wellformed}}
 	if dupOf >= 0 {
